@@ -260,8 +260,7 @@ def replay(beh, opof, timeout, root, v, tag):
                 os.symlink(poolpath, ch.cache)
             else:
                 write_content(ch.cache, st0["cache"][p])
-            ch.advance_to_gate()          # blocked at "begin"
-            ch.go()                       # runs to its first real gate (trylock) or finishes (upload_link refusal)
+            ch.advance_to_gate()          # blocked at "begin": the process arrives (opens the lock file) only with its first action
         incs = set()
         steps = 0
         prev = st0
@@ -278,6 +277,8 @@ def replay(beh, opof, timeout, root, v, tag):
             history.append([action, p])
             ch = children.get(p)
             reps = []
+            if ch is not None and ch.at == "begin" and action != "Crash":
+                ch.go()                   # arrival: runs to the lock attempt, or returns at once (upload_link refusing a link)
             if action == "Crash":
                 ch.kill()
                 incs.discard(p)
@@ -405,6 +406,28 @@ def run(tier, seed):
                 samples.append({"ops": opof, "initial": {"pool": beh[0][1]["pool"], "cache": C.tlaval.plain(beh[0][1]["cache"])},
                                 "actions": [a for a, _ in beh[1:]]})
         instances.append({"ops": opof, "timeout": timeout, "distinct_states": r.distinct, "behaviours_replayed": n_here})
+    # directed behaviours: TLC refutes the negation of each scenario, the counterexample is replayed with real processes
+    scen_ops = {"p1": "upload", "p2": "download", "p3": "upload"}
+    nscen = 0
+    for scen in ("NoLateArrival", "NoCrashRelease", "NoFailRelease", "NoTimeoutScenario"):
+        name = "MC_scen_" + scen
+        write_model(work, name, scen_ops, [1, 2], 2, sorted(scen_ops), sorted(scen_ops))
+        with open(os.path.join(work, name + ".cfg")) as f:
+            cfg = f.read()
+        cfg = "\n".join(l for l in cfg.splitlines() if not l.startswith(("INVARIANT", "PROPERTY"))) + "\nINVARIANT %s\n" % scen
+        with open(os.path.join(work, name + ".cfg"), "w") as f:
+            f.write(cfg)
+        rs = C.run_tlc(work, name, name + ".cfg", timeout=1200)
+        if rs.violated != scen:
+            raise C.MachineryError("scenario %s is not reachable in the model: %s" % (scen, rs.errors[:3]))
+        beh = rs.trace()
+        states += rs.distinct
+        transitions += rs.generated
+        steps += replay(beh, scen_ops, 2, root, v, "scenario-" + scen[2:])
+        replayed += 1
+        nscen += 1
+    instances.append({"ops": scen_ops, "directed_scenarios": nscen, "scenarios": ["late arrival after hand-over", "crash inside the critical section",
+                                                                                   "failing copy", "timeout while the holder is inside"]})
     # more processes by simulation only
     big = {"p%d" % i: rng.choice(OPS) for i in range(1, (5 if quick else 9))}
     write_model(work, "MC_lock_big", big, [1, 2], 3, sorted(big), sorted(big)[:2])
